@@ -1129,7 +1129,10 @@ class MemoryCache:
         elif isinstance(obj, pd.DataFrame) or isinstance(obj, pd.Series):
             return MemoryCache._pd_linreg_mem_usage(obj)
         elif isinstance(obj, np.ndarray):
-            return sys.getsizeof(obj)
+            # sys.getsizeof leaves out the buffer of an array that does not own its data,
+            # which is the case for every array read back from the store
+            size = sys.getsizeof(obj)
+            return size if obj.flags.owndata else size + obj.nbytes
         elif isinstance(obj, InMemoryPartition):
             result = 0
             for key in obj.list_keys():
